@@ -693,12 +693,40 @@ Proof.
 Qed.
 
 (** * Timeout source through the command line (Program.update_config + run options) *)
-From InvokeVerif Require Model.RunTypes Model.ProgramModel Proofs.Program_update.
+From InvokeVerif Require Model.RunTypes Model.OptsModel Model.ProgramModel.
 From InvokeVerif Require Import Corr.C14Corr.
 
 Definition OIntN (n : nat) : RunTypes.oval := RunTypes.OInt (Z.of_nat n).
 Definition oval_of (o : option nat) : RunTypes.oval :=
   match o with Some n => OIntN n | None => RunTypes.ONone end.
+
+(** (proved here from the models alone, so that C14 does not depend on C15's proof files) *)
+Lemma unify_timeout c k r :
+  OptsModel.unify c k = Ok r ->
+  RunTypes.r_timeout r = match RunTypes.kw_timeout k with Some v => v | None => RunTypes.cf_timeout c end.
+Proof.
+  unfold OptsModel.unify. destruct (RunTypes.kw_extra k); [|discriminate].
+  match goal with |- context [if ?b then Err _ else _] => destruct b; [discriminate|] end.
+  match goal with |- context [match ?x with Some _ => _ | None => Err _ end] => destruct x; [|discriminate] end.
+  intros H. inversion H. reflexivity.
+Qed.
+
+Lemma cli_timeout_local a lower k r :
+  ProgramModel.effective_opts_cli a lower k = Ok r ->
+  RunTypes.r_timeout r = match RunTypes.kw_timeout k with
+                         | Some v => v
+                         | None => match ProgramTypes.a_timeout a with
+                                   | Some n => if Z.eqb n 0 then RunTypes.cf_timeout lower else RunTypes.OInt n
+                                   | None => RunTypes.cf_timeout lower
+                                   end
+                         end.
+Proof.
+  intros U. unfold ProgramModel.effective_opts_cli in U. rewrite (unify_timeout _ _ _ U).
+  destruct (RunTypes.kw_timeout k); [reflexivity|].
+  unfold ProgramModel.cli_config. cbn [RunTypes.cf_timeout].
+  unfold ProgramModel.override_timeout, ProgramModel.overrides_of, ProgramModel.timeouts_section, ProgramModel.item.
+  destruct (ProgramTypes.a_timeout a) as [n|]; [destruct (Z.eqb n 0)|]; reflexivity.
+Qed.
 
 (** the three-line rule used by the correspondence is the Program/option model's *)
 Lemma program_timeout_is_model a lower k r kw cli lw :
@@ -708,7 +736,7 @@ Lemma program_timeout_is_model a lower k r kw cli lw :
   RunTypes.cf_timeout lower = oval_of lw ->
   RunTypes.r_timeout r = oval_of (program_timeout kw cli lw).
 Proof.
-  intros U K A L. rewrite (Program_update.cli_timeout a lower k r U), K, A, L.
+  intros U K A L. rewrite (cli_timeout_local a lower k r U), K, A, L.
   destruct kw as [v|]; [reflexivity|]. destruct cli as [n|]; [|reflexivity]. cbn.
   destruct n; reflexivity.
 Qed.
@@ -719,4 +747,4 @@ Lemma config_only_via_cli a lower k r :
   ProgramTypes.a_timeout a = None -> RunTypes.kw_timeout k = None ->
   ProgramModel.effective_opts_cli a lower k = Ok r ->
   RunTypes.r_timeout r = RunTypes.cf_timeout lower.
-Proof. intros A K U. rewrite (Program_update.cli_timeout a lower k r U), K, A. reflexivity. Qed.
+Proof. intros A K U. rewrite (cli_timeout_local a lower k r U), K, A. reflexivity. Qed.
